@@ -29,6 +29,7 @@ type FS struct {
 	budget  int // 0 = unlimited
 	runaway bool
 	failing map[string]error
+	onClose map[string]func() // one-shot hooks: run when an opened file of that name is closed
 }
 
 // New creates an empty FS.
@@ -146,6 +147,32 @@ func (i info) Sys() any                   { return nil }
 func (i info) Type() fs.FileMode          { return i.mode.Type() }
 func (i info) Info() (fs.FileInfo, error) { return i, nil }
 
+// OnClose registers a one-shot hook that runs when a file of that name, opened after this
+// call, is closed - i.e. right after somebody has read it. It models an edit that lands
+// between a reader's read and whatever the reader does next.
+func (f *FS) OnClose(name string, fn func()) {
+	f.mu.Lock()
+	if f.onClose == nil {
+		f.onClose = map[string]func(){}
+	}
+	f.onClose[name] = fn
+	f.mu.Unlock()
+}
+
+type hookedFile struct {
+	*openFile
+	hook func()
+}
+
+func (h *hookedFile) Close() error {
+	if h.hook != nil {
+		fn := h.hook
+		h.hook = nil
+		fn()
+	}
+	return nil
+}
+
 type openFile struct {
 	info
 	r *strings.Reader
@@ -199,7 +226,12 @@ func (f *FS) Open(name string) (fs.File, error) {
 		return nil, &fs.PathError{Op: "open", Path: name, Err: err}
 	}
 	if fl, ok := f.files[name]; ok {
-		return &openFile{info{path.Base(name), int64(len(fl.data)), fl.mode, fl.mtime}, strings.NewReader(string(fl.data))}, nil
+		of := &openFile{info{path.Base(name), int64(len(fl.data)), fl.mode, fl.mtime}, strings.NewReader(string(fl.data))}
+		if hook, ok := f.onClose[name]; ok {
+			delete(f.onClose, name)
+			return &hookedFile{openFile: of, hook: hook}, nil
+		}
+		return of, nil
 	}
 	if f.isDir(name) {
 		return &openDir{info: info{path.Base(name), 0, fs.ModeDir | 0o755, time.Unix(1, 0)}, ents: f.list(name)}, nil
